@@ -113,3 +113,17 @@ Theorem C09_dictionary_write_read :
   Layout.dict_at dec_fst dec_roar file ft mode ndocs dictLoc = Some (List.combine (List.map fst kvs) want).
 Proof. exact DictProof.dict_at_roundtrip. Qed.
 Print Assumptions C09_dictionary_write_read.
+
+Require ZV.FieldsProof.
+
+(* the fields section (persistFieldsSection): per field a record  uvarint(len name) name uvarint(#sections)
+   { be16 type, be64 address }*, then the index  uvarint(#fields) { be64 record offset }*;  the frozen
+   reader's field_table, pointed at the index, returns exactly the names and (type, address) pairs written *)
+Theorem C09_fields_section_roundtrip : forall (pre rest : Bytes.bytes) fs,
+  pre <> nil -> List.Forall FieldsProof.wf_field fs -> (N.of_nat (length fs) < Layout.max_count)%N ->
+  (LayoutProof.nlenb pre + LayoutProof.nlenb (List.flat_map FieldsProof.enc_record fs) < 256 ^ 8)%N ->
+  Layout.field_table (pre ++ FieldsProof.enc_fields (LayoutProof.nlenb pre) fs ++ rest)
+                     (LayoutProof.nlenb pre + LayoutProof.nlenb (List.flat_map FieldsProof.enc_record fs))%N
+  = Some (List.map Some fs).
+Proof. exact FieldsProof.fields_section_roundtrip. Qed.
+Print Assumptions C09_fields_section_roundtrip.
